@@ -257,4 +257,18 @@ def St.rows (s : St) : List Row := s.coll.take s.n
 /-- `NewResult(t)` -/
 def newResult (t : Ty) : St := { single := emptyRow t.nsel, coll := [], n := 0, ncols := t.nsel }
 
+/-! ### row bound (used by the C10 theorems and evaluated by the oracle) -/
+
+mutual
+/-- rows that one `scan` of `t` can add when at most `L + 1` iterations fit into the input -/
+def Ty.rowBound (L : Nat) : Ty → Nat
+  | .stat _ => 0
+  | .dyn _ => 0
+  | .arr _ e => (L + 1) * ((if e.isArr then 0 else 1) + e.rowBound L)
+  | .tup fs => fs.rowBound L
+def Tys.rowBound (L : Nat) : Tys → Nat
+  | .nil => 0
+  | .cons t ts => t.rowBound L + ts.rowBound L
+end
+
 end Shovel.Abi
